@@ -202,7 +202,7 @@ class Evaluator:
         self.fill_defaults = fill_defaults
         self.callee_hook = callee_hook
         self.observer = observer    # observer(call_node, term, state) for every evaluated call
-        self.unroll_limit = 4
+        self.unroll_limit = 8
         self.npaths = 0
         self._fresh = itertools.count()
         self.stats = {'forks': 0, 'calls_resolved': 0, 'calls_unresolved': 0, 'inlined': 0}
@@ -1296,6 +1296,14 @@ def _static_items(it):
     """Elements of an iteration space that is known statically (literal sequences, enumerate/range of those)."""
     if it[0] in ('list', 'tuple'):
         return list(it[1])
+    if it[0] == 'dict':
+        return [k for k, v in it[1]]
+    if it[0] == 'meth' and it[1] in ('items', 'keys', 'values') and it[2][0] == 'dict' and not it[3]:
+        if it[1] == 'keys':
+            return [k for k, v in it[2][1]]
+        if it[1] == 'values':
+            return [v for k, v in it[2][1]]
+        return [('tuple', (k, v)) for k, v in it[2][1]]
     if it[0] == 'call' and it[1] == 'builtins.enumerate' and len(it[2]) == 1 and not it[3]:
         inner = _static_items(it[2][0])
         if inner is not None:
